@@ -19,6 +19,8 @@ EXPRS = {
     # every spelling of an old-style negation: prefix {-, ~} x optional @ (one representative per rewriting)
     "-@t": ("not", L("t")), "~@t": ("not", L("t")), "@t,~@u": ("or", L("t"), ("not", L("u"))),
     "not u": ("not", L("u")),
+    # wildcard operands that combine ONE star with the other wildcard kinds, and a character class alone
+    "[t]*": L("[t]*"), "not ?*": ("not", L("?*")), "[!u]": L("[!u]"),
     # a tag whose text contains '<' and '>' (legal tag text, looks like an outline placeholder)
     "r<1>": L("r<1>"), "not r<1>": ("not", L("r<1>")),
     # several --tags arguments are AND-ed (list form), in both dialects
